@@ -32,6 +32,12 @@ func TestC34(t *testing.T) {
 	m.Gate("method_in_list_checks_after_partial", 30, "a method was chosen from the list of a partial success")
 	m.Gate("connection_traffic_after_success", 30, "dialogues that continued after SUCCESS")
 	m.Gate("ext:absent", 10, "dialogues without server-sig-algs")
+	m.Gate("pubkey_algorithm_rule:overlap-ordered", 50, "requests whose algorithm had to be the signer's first choice among the server's list")
+	m.Gate("pubkey_algorithm_rule:fallback-keyformat", 50, "requests without usable server-sig-algs (fallback to the key format)")
+	m.Gate("signatures_verified:rsa-sha2-256", 3, "RSA SHA-256 signatures verified")
+	m.Gate("signatures_verified:rsa-sha2-512", 3, "RSA SHA-512 signatures verified")
+	m.Gate("signatures_verified:ssh-rsa", 3, "RSA SHA-1 signatures verified")
+	m.Gate("failure_list_without_tried_method", 50, "FAILURE lists that dropped the method just tried")
 	m.Gate("rsa_cert_sha1_compat_offer", 3, "the ssh-rsa-cert-v01 retry after a rejected SHA-2 certificate offer was seen")
 	m.Gate("b_compatible_authenticated", 30, "Setup B compatible combinations")
 	m.Gate("b_incompatible_failed", 10, "Setup B incompatible combinations")
@@ -39,7 +45,7 @@ func TestC34(t *testing.T) {
 }
 
 func runSetupA(m *mon.M) {
-	total := m.N(2400, 80000)
+	total := m.N(2400, 96000)
 	m.Cases("scripted", total, func(i int64, r *rand.Rand) {
 		var spec *clientSpec
 		var pol *policy
@@ -68,6 +74,10 @@ func runSetupA(m *mon.M) {
 		fs, st := judge(spec, pol, d)
 		m.Eval()
 		for k, v := range st {
+			if strings.HasPrefix(k, "D|") {
+				m.Distinct(k)
+				continue
+			}
 			m.Count(k, v)
 		}
 		m.Count("ext:"+extNames[pol.extMode], 1)
